@@ -272,6 +272,7 @@ func c17RunScenario(r *evid.Run, st *Stats, ops []c17Op, sc c17Scenario, bound i
 	report := func(sig, detail string, x *sched.Execution) {
 		r.Violation(evid.Replay{Scenario: "c17." + sc.name, Kind: "schedule", Vector: x.Choices(), History: strings.Split(label(), " || "), Sig: sig, Detail: detail + "\nthreads: " + label() + fmt.Sprintf("\nschedule (choice per decision): %v", x.Choices())})
 	}
+	laterCalls := false
 	check := func(x *sched.Execution) string {
 		st.Trans.Add(int64(len(sc.ops)))
 		if x.Diverged != "" {
@@ -322,8 +323,12 @@ func c17RunScenario(r *evid.Run, st *Stats, ops []c17Op, sc c17Scenario, bound i
 			regSnap = now
 		}
 		// what the interleaving left behind in package-level state: the same calls made once more, one after the
-		// other, still return what they return sequentially
+		// other, still return what they return sequentially (done in the reduced exploration, which visits every
+		// interleaving of the synchronisation operations; the bounded brute force below skips it)
 		for i, oi := range sc.ops {
+			if !laterCalls {
+				break
+			}
 			var again string
 			if p, v := safely(func() { again = ops[oi].run(fx) }); p {
 				report("C17:later-call-panics:"+ops[oi].name, fmt.Sprintf("after this interleaving a sequential %s panics: %v", ops[oi].name, v), x)
@@ -336,7 +341,9 @@ func c17RunScenario(r *evid.Run, st *Stats, ops []c17Op, sc c17Scenario, bound i
 	// (a) every interleaving, without preemption bound, at synchronisation operations and at the accesses
 	// on which threads conflict (learned to a fixpoint) - a partial-order reduced full exploration;
 	// (b) brute force over ALL instrumented accesses up to the preemption bound.
+	laterCalls = true
 	rs, rounds, learned := sched.ExploreReduced(mk, attachHook, sched.Options{Bound: -1, Deadline: dl, MaxExecs: 200000}, check)
+	laterCalls = false
 	agg.Outcomes["reduced-schedules"] += rs.Schedules
 	agg.Outcomes["reduced-rounds"] += int64(rounds)
 	agg.Outcomes["reduced-conflict-addresses"] += int64(learned)
